@@ -7620,11 +7620,16 @@ fn eval_struct_value(
 
     let mut fields = vec![];
 
+    // The values we've popped so far, so we can put them back (in
+    // their original order) if this struct literal is an error.
+    let mut popped_values: Vec<Value> = vec![];
+
     let type_bindings = env.current_frame().type_bindings.clone();
     for (field_sym, field_expr) in field_exprs {
         let field_value = env
             .pop_value()
             .expect("Value stack should have sufficient items for the struct literal");
+        popped_values.push(field_value.clone());
 
         let Some(field_info) = expected_fields_by_name.remove(&field_sym.name) else {
             // TODO: this would be a good candidate for additional
@@ -7636,7 +7641,7 @@ fn eval_struct_value(
             ))]);
 
             return Err((
-                RestoreValues(vec![]), // TODO
+                RestoreValues(popped_values.into_iter().rev().collect()),
                 EvalError::Exception(ExceptionInfo {
                     position: field_sym.position.clone(),
                     message,
@@ -7655,7 +7660,7 @@ fn eval_struct_value(
             Type::from_hint(&field_info.hint, &env.types, &type_bindings).unwrap_or_err_ty();
         if let Err(msg) = check_type(&field_value, &expected_ty, env) {
             return Err((
-                RestoreValues(vec![]), // TODO
+                RestoreValues(popped_values.into_iter().rev().collect()),
                 EvalError::Exception(ExceptionInfo {
                     position: field_expr.position.clone(),
                     message: ErrorMessage(vec![Text(format!(
@@ -7682,7 +7687,7 @@ fn eval_struct_value(
         ))]);
 
         return Err((
-            RestoreValues(vec![]), // TODO
+            RestoreValues(popped_values.into_iter().rev().collect()),
             EvalError::Exception(ExceptionInfo {
                 position: outer_expr_pos.clone(),
                 message,
